@@ -410,22 +410,35 @@ def coeff_exprs(gs, canon):
     out = {}
     for t in gs.t:
         names = tuple(a[0] for a in t.atoms)
-        if len(set(names)) != len(names):
-            raise Unsupported('monomial mentions the same array twice: %s' % (names,))
         key = (t.h, names)
-        cons = list(t.g)
-        for name, idx, isdata in t.atoms:
-            cv = canon.vars(name, len(idx))
-            for e, v in zip(idx, cv):
-                cons.append(I(e) == v)
-        for (a, lo, hi) in t.bv:
-            cons.append(I(a) >= I(lo))
-            cons.append(I(a) < I(hi))
-        for cs in eliminate_bound(cons, t.bv):
-            cs = [c for c in (simp(c) for c in cs) if c is not True]
-            if any(c is False for c in cs):
-                continue
-            out.setdefault(key, []).append((cs, t.c))
+        # a name occurring k times: the polynomial is compared through its
+        # symmetrisation (all k! assignments of the occurrences to the slots)
+        groups = {}
+        for pos, nm in enumerate(names):
+            groups.setdefault(nm, []).append(pos)
+        perms = [[]]
+        for nm, poss in groups.items():
+            perms = [p + [(poss, list(q))] for p in perms for q in itertools.permutations(poss)]
+        for perm in perms:
+            slot = {}
+            for poss, q in perm:
+                for a_, b_ in zip(poss, q):
+                    slot[a_] = b_
+            cons = list(t.g)
+            for pos, (name, idx, isdata) in enumerate(t.atoms):
+                tgt = slot[pos]
+                occ = groups[name].index(tgt)
+                cv = canon.vars(name if occ == 0 else '%s#%d' % (name, occ + 1), len(idx))
+                for e, v in zip(idx, cv):
+                    cons.append(I(e) == v)
+            for (a, lo, hi) in t.bv:
+                cons.append(I(a) >= I(lo))
+                cons.append(I(a) < I(hi))
+            for cs in eliminate_bound(cons, t.bv):
+                cs = [c for c in (simp(c) for c in cs) if c is not True]
+                if any(c is False for c in cs):
+                    continue
+                out.setdefault(key, []).append((cs, t.c))
     return out
 
 
